@@ -335,6 +335,7 @@ structure MonSt where
   inTbl : Mon.PeerTable := []     -- C13: alias bindings the peer announced on this connection
   ownMps : Option Nat := none     -- C14: the Maximum Packet Size we announced on this connection
   ownTam : Nat := 0               -- C13: the Topic Alias Maximum we announced on this connection
+  peerMps : Nat := 268435460      -- C14: the Maximum Packet Size the peer announced on this connection (none: protocol maximum)
   pend : List (Nat × Nat) := []   -- C08: outbound exchanges of this connection: (id, nibble of the awaited acknowledgement)
   nsGhost : Bool := false         -- C11: is the session persistent (CONNECT / CONNACK / offline option)
   srvMs : Nat := 0                -- C15: a server's receive timeout (1.5 x keep alive), 0 = none
@@ -352,7 +353,10 @@ def monitorCall (cfg : Cfg) (cmp : String) (m : MonSt) (name : String) (ln : Nat
     let r := r.viol s!"C06 {clause}@{site}" msg
     if cmp = "C16" then r.viol s!"C16 {clause}@{site}" msg else r
   if evS = "PANIC" then
-    (m, r.viol s!"C05 panic@{site}" s!"{here}: the implementation panicked in `{" ".intercalate (op.take 2)}`")
+    -- every call is total (C05); the flow-control account in particular "never wraps or panics" (C12):
+    -- the harness is built with overflow checks, so a wrapping counter surfaces here
+    let msg := s!"{here}: the implementation panicked in `{" ".intercalate (op.take 2)}`"
+    (m, (r.viol s!"C05 panic@{site}" msg).viol s!"C12 panic@{site}" msg)
   else
   match parseEvents evS with
   | none => (m, r.mdiff "parse.events" s!"{here}: cannot parse events `{evS}`")
@@ -369,7 +373,14 @@ def monitorCall (cfg : Cfg) (cmp : String) (m : MonSt) (name : String) (ln : Nat
     let r := if (op = ["timer", "R"] ∨ op = ["timer", "P"]) ∧ stBefore = "C" ∧ !Mon.hasClose evs then
         r.viol s!"C19 timeout_without_close@{site}" s!"{here}: keep-alive timeout on an established connection did not request a close: {evS}" else r
     -- C14
-    let limit := (g "mps").toNat?.getD noLimit
+    -- the limit is the one the PEER announced in the CONNECT / CONNACK delivered on this connection
+    -- (ghost; it does not trust the implementation's own field)
+    let peerMps0 : Nat := match op with | ["closed"] => noLimit | _ => m.peerMps
+    let peerMps : Nat := evs.foldl (fun (acc : Nat) (e : Ev) => match e with
+      | .recv q => if q.ver = 5 ∧ (q.kind = Kind.connect ∨ (q.kind = Kind.connack ∧ q.rc = some 0)) then (Mon.findProp q pMPS).getD noLimit else acc
+      | .send q _ => if q.kind = Kind.connect then noLimit else acc
+      | _ => acc) peerMps0
+    let limit := peerMps
     let r := if ver = 5 ∧ !Mon.sentSizesWithin cfg.pw limit evs then
         r.viol s!"C14 oversize_sent@{site}" s!"{here}: a packet larger than the peer's Maximum Packet Size {limit} was requested for sending: {evS}" else r
     -- C15
@@ -545,6 +556,10 @@ def monitorCall (cfg : Cfg) (cmp : String) (m : MonSt) (name : String) (ln : Nat
              | [.error _, .released id] => p.pid = some id
              | _ => false
            let ch := changed ["pidfree"]
+           -- (a PUBLISH can also be refused with this code for its alias; those are C13's subject)
+           let gateOnly := p.kind != Kind.publish || (p.alias.isNone && !p.topic.isEmpty)
+           let r := if mayT ∧ gateOnly ∧ !m.prev.isEmpty ∧ Mon.hasErrorCode evs eNotAllowed ∧ !transmitted then
+               r.viol s!"C11 allowed_but_refused@{site}" s!"{here}: role, version and connection state allow this packet (status {stBefore}, need_store {nsB}, offline {offB}), yet it was refused with PacketNotAllowedToSend: {evS}" else r
            if !mayT ∧ (!shapeOk ∨ !ch.isEmpty) then
              r.viol s!"C11 gate_refusal_not_noop@{site}" s!"{here}: the gate refuses this packet, yet events=[{evS}] changed fields={ch}" else r
          | none => r)
@@ -704,8 +719,19 @@ def monitorCall (cfg : Cfg) (cmp : String) (m : MonSt) (name : String) (ln : Nat
       | .recv p => p.kind = Kind.connack ∧ p.rc = some 0 ∧ p.sp ∧ stBefore ≠ "C"
       | .send p _ => p.kind = Kind.connack ∧ p.rc = some 0 ∧ p.sp
       | _ => false
+    let storeSizes (x : String) : List (Nat × Nat) :=
+      if x = "-" ∨ x = "" then [] else (x.splitOn "};").filterMap fun (e : String) =>
+        match e.splitOn ":{" with
+        | [i, rest] => (match i.toNat?, (kvGet (parseKV rest) "sz").toNat? with
+            | some i, some z => some (i, z) | _, _ => none)
+        | _ => none
+    -- which stored packets fit the limit the peer announced for THIS connection (v5.0; ghost limit)
+    let fitsNow (id : Nat) : Bool := ver ≠ 5 || ((storeSizes (gp "store")).all fun (e : Nat × Nat) => e.1 ≠ id || e.2 ≤ peerMps)
     let r := if resumed ∧ !m.prev.isEmpty ∧ !newSession then
-        let expect := stB.filter fun id => !rel.contains id
+        let keptOversize := (storeSizes (g "store")).filter fun (e : Nat × Nat) => ver = 5 ∧ e.2 > peerMps
+        let r := if !keptOversize.isEmpty then
+            r.viol s!"C14 oversize_stored_kept@{site}" s!"{here}: the session was resumed under the peer's Maximum Packet Size {peerMps}; stored packets (id, size) {keptOversize} exceed it and are still in the store (they must be dropped and their identifiers released): {evS}" else r
+        let expect := stB.filter fun id => fitsNow id
         let got := Mon.sentExchangeIds evs
         if got ≠ expect then
           violStore "resend_mismatch" r s!"{here}: on session resume the stored packets {expect} (store order, minus oversize drops) must be requested again in that order; requested: {got}" else r
@@ -878,7 +904,7 @@ def monitorCall (cfg : Cfg) (cmp : String) (m : MonSt) (name : String) (ln : Nat
              r.viol s!"C07 swallowed@{site}" s!"{here}: a valid QoS 2 PUBLISH (id {id}) was accepted without error but not notified, although no earlier PUBLISH of this exchange was notified (open exchanges {q2}): {evS}" else r
          | .error _ => r)
       | _ => r
-    ({ prev := dig, armed := armed, peer := peer, peerTam := peerTam, armedBad := armedBad, credit := cr, ivl := iv, q2open := q2', inTbl := inTbl, ownMps := ownMps, pend := pend, nsGhost := ns, srvMs := srvMs, ownTam := ownTam }, r)
+    ({ prev := dig, armed := armed, peer := peer, peerTam := peerTam, armedBad := armedBad, credit := cr, ivl := iv, q2open := q2', inTbl := inTbl, ownMps := ownMps, pend := pend, nsGhost := ns, srvMs := srvMs, ownTam := ownTam, peerMps := peerMps }, r)
 
 structure ConnRun where
   cs : ConnSt := {}
@@ -1014,7 +1040,15 @@ def codecTie (pw verBefore : Nat) (op : List String) (oracle evS here : String) 
         match hexToBytes hexS, (kvGet kv "v").toNat? with
         | some bytes, some v =>
           match MqttVerif.Codec.frameBody bytes with
-          | some (fh, _, body) => viewCheck pw v fh body d (kvGet kv "x" = "1") (here ++ " (sent)") r
+          | some (fh, rl, body) =>
+            -- the Remaining Length on the wire frames exactly the bytes that follow
+            let r := if rl ≠ body.length then
+                let r := r.mdiff "codec.sent.remlen" s!"{here}: a packet requested for sending declares Remaining Length {rl} but {body.length} bytes follow: {hexS.take 60}"
+                if fh / 16 = 3 ∧ v = 5 then
+                  r.viol "C13 emitted_publish_malformed@send" s!"{here}: the PUBLISH requested for sending cannot be framed by a conformant receiver (Remaining Length {rl}, {body.length} bytes follow), so neither its topic nor its alias can be resolved: {hexS.take 80}"
+                else r
+              else r
+            viewCheck pw v fh body d (kvGet kv "x" = "1") (here ++ " (sent)") r
           | none => r.mdiff "codec.view.frame" s!"{here}: sent bytes {hexS.take 40} are not a frame"
         | _, _ => r
       | _ => r
